@@ -780,6 +780,11 @@ class NpTranslator:
                     or (isinstance(n, (ast.FunctionDef, ast.ClassDef)) and n is not node):
                 raise self.bad("construct %s" % type(n).__name__, n)
         defined0 = {p for p, _ in self.params}
+        # a parameter / local that rebinds the name of an imported module (np = ...) would change what np.f means
+        local_names = {x.arg for x in a.args} | {x.id for x in ast.walk(node) if isinstance(x, ast.Name) and isinstance(x.ctx, (ast.Store, ast.Del))}
+        clash = sorted(local_names & set(self.m.alias))
+        if clash:
+            raise self.bad("%s rebinds the imported name(s) %s" % (self.name, ", ".join(clash)), node)
         # pre-pass: types of the locals to a fixpoint (a name not typed yet postpones the statement)
         text = None
         for _round in range(8):
